@@ -281,6 +281,15 @@ func (e *Exec) doIndex(fr *Frame, st *State, x *ssa.Index) Value {
 		n := IntLit(u.Len())
 		e.safety(st, "safe:index", render(x, 0), And(Le(IntLit(0), idx), Lt(idx, n)), e.posOf(x), idx)
 		e.assume(st.pc, And(Le(IntLit(0), idx), Lt(idx, n)))
+	case *types.Basic:
+		if u.Info()&types.IsString != 0 {
+			s := e.term(fr, st, x.X)
+			e.safety(st, "safe:index", render(x, 0), And(Le(IntLit(0), idx), Lt(idx, App(SInt, "slen", s))), e.posOf(x), App(SInt, "slen", s), idx)
+			e.assume(st.pc, And(Le(IntLit(0), idx), Lt(idx, App(SInt, "slen", s))))
+			r := e.def(SInt, App(SInt, "sat", s, idx))
+			e.assume(st.pc, And(Le(IntLit(0), r), Le(r, IntLit(255))))
+			return r
+		}
 	}
 	return e.havocValue(x.Type(), st.pc, "index")
 }
